@@ -8,6 +8,7 @@ import (
 	"os"
 	"path/filepath"
 	"regexp"
+	"runtime/debug"
 	"sort"
 	"strconv"
 	"strings"
@@ -80,7 +81,7 @@ func RunCheck(cfg CheckCfg, prop func(*rapid.T)) *Obs {
 		defer func() {
 			if r := recover(); r != nil {
 				if _, ok := r.(tbStop); !ok {
-					obs.Escaped = r
+					obs.Escaped = fmt.Sprintf("%v\n%s", r, trimStack(debug.Stack()))
 				}
 			}
 		}()
@@ -315,3 +316,18 @@ func removeFile(p string) error { return os.Remove(p) }
 // plentyNS is a -rapid.shrinktime that minimization of the small generated programs never reaches, so that
 // runs which are compared with each other are not cut at load-dependent points.
 const plentyNS = int64(60e9)
+
+// trimStack keeps the part of a stack dump that lies inside the library under test.
+func trimStack(b []byte) string {
+	lines := strings.Split(string(b), "\n")
+	var out []string
+	for i := 0; i+1 < len(lines); i++ {
+		if strings.HasPrefix(lines[i], "pgregory.net/rapid.") || strings.HasPrefix(lines[i], "panic(") {
+			out = append(out, strings.TrimSpace(lines[i])+" "+strings.TrimSpace(lines[i+1]))
+		}
+		if len(out) > 14 {
+			break
+		}
+	}
+	return strings.Join(out, " | ")
+}
